@@ -22,6 +22,8 @@ OBLIGATIONS = [ob(2, 1), ob(3, 1), ob(3, 2),
         bounds='4 bytes against a line stash of 3: the over-long-line paths; memory safety and termination only')] + \
     [ob(5, 2, defs=['N=5', 'SPLIT=2', 'ECHSE_VERIF_STASH=3U', 'SAFETY_ONLY'], name='overlong_n5_split2_stash3', tiers=('thorough',), timeout=3000, mem_gb=16, excludes=[],
         bounds='5 bytes against a line stash of 3; memory safety and termination only')] + \
+    [ob(4, a, name='n4_split%d_%d' % (a, b), defs=['N=4', 'SPLIT=%d' % a, 'SPLIT2=%d' % b, 'ECHSE_VERIF_STASH=16U'], timeout=1500, mem_gb=10, bounds='4 bytes in three chunks cut after bytes %d and %d vs one chunk' % (a, b)) for a, b in ((1, 2), (1, 3), (2, 3))] + \
+    [ob(5, a, name='n5_split%d_%d' % (a, b), defs=['N=5', 'SPLIT=%d' % a, 'SPLIT2=%d' % b, 'ECHSE_VERIF_STASH=16U'], timeout=3000, mem_gb=16, tiers=('thorough',), bounds='5 bytes in three chunks cut after bytes %d and %d vs one chunk' % (a, b)) for a, b in ((1, 3), (2, 3), (2, 4), (1, 2), (3, 4), (1, 4))] + \
     [ob(5, k, tiers=('thorough',), timeout=3000, mem_gb=16) for k in (1, 2, 3, 4)] + \
     [ob(6, 3, tiers=('thorough',), timeout=3400, mem_gb=24)] + \
     [ob(3, k, defs=['N=3', 'SPLIT=%d' % k, 'ECHSE_VERIF_STASH=16U', 'EMIT'], name='n3_split%d_emit' % k, tiers=('thorough',), timeout=3000, mem_gb=30) for k in (1, 2)] + \
